@@ -160,6 +160,9 @@ class Ctx:
         self.lens = False
         self.mod = None
         self.poison = frozenset()   # lens-mode: reference variables that may be stale on the current control-flow path
+        self.risky = set()          # integer variables that come from the CALLER (parameters, payloads of Index / Bound / Range values) or are
+                                    # computed from one: they can be anywhere in 0..=usize::MAX, so `+` on them is translated CHECKED
+                                    # (panics on overflow, the debug-profile meaning); counters derived from lengths stay unbounded
         self.call_map = {}          # per-target: path call -> key of the generated function it dispatches to (trait dispatch on Self)
         self.closure_k = None       # continuation of the innermost inlined closure (`?` / return inside it leave the closure)
         self.loops = []             # stack of (break_code_fn, continue_code_fn)
@@ -222,6 +225,23 @@ def has_ref(ty):
 
 POINTER_ONLY = {"is_root", "count", "front", "back", "first", "last", "split_front", "split_back", "parent", "intersection"}
 MUTATORS = {"push", "extend_from_slice", "push_str", "insert", "insert_str", "pop", "clear", "split_off", "remove"}
+
+
+# values of these types are built by the caller of the public API from arbitrary integers
+CALLER_INT_TYPES = {"Index", "Bound", "Range", "RangeFrom", "RangeTo", "RangeInclusive", "RangeToInclusive"}
+# integer parameters of public functions (any value in 0..=usize::MAX may arrive)
+CALLER_INT_PARAMS = {"gen_PointerBuf_replace": ("index",), "gen_Pointer_split_at": ("offset",), "gen_Index_for_len": ("length",),
+                     "gen_Index_for_len_incl": ("length",), "gen_Index_for_len_unchecked": ("length",), "gen_parse_index": ("length",)}
+
+
+def mentions(node, names):
+    """does the AST mention one of the variables `names` (as a path expression)?"""
+    if isinstance(node, tuple):
+        if node[:1] == ("path",) and len(node[1]) == 1 and node[1][0] in names: return True
+        return any(mentions(x, names) for x in node[1:])
+    if isinstance(node, list):
+        return any(mentions(x, names) for x in node)
+    return False
 
 
 def has_jump(node):
@@ -416,7 +436,15 @@ class Emitter:
             return self.tr(e[1], env, cx, after)
         if kind == "macro": return self.tr_macro(e, env, cx, k)
         if kind == "cast":
-            return self.tr(e[1], env, cx, lambda t, ty: k(t, ty_of_tokens(e[2], cx.self_ty)))
+            # integers are unbounded N in the model: a cast to an unsigned type keeps the low bits (`x as u16` = x mod 2^16); widening
+            # casts are then the identity on values that fit.  Anything else (signed targets, char, pointers) is refused.
+            target = "".join(x for x in e[2] if not x.startswith("'"))
+            bits = {"u8": 8, "u16": 16, "u32": 32, "u64": 64, "usize": 64}.get(target)
+            if bits is None: raise RsError(f"cast to `{target}` not supported")
+            def casted(t, ty):
+                if ty != "N": raise RsError(f"cast of a non-integer ({ty!r}) not supported")
+                return k(f"({t} mod {2 ** bits})", "N")
+            return self.tr(e[1], env, cx, casted)
         if kind == "range": raise RsError("range expression outside an index")
         if kind == "closure": raise RsError("closure in an unsupported position")
         raise RsError(f"expression kind {kind} not supported")
@@ -462,6 +490,9 @@ class Emitter:
         def after(ts):
             (lt, lty), (rt, rty) = ts
             if op == "+":
+                if cx.risky and (mentions(l, cx.risky) or mentions(r, cx.risky)):
+                    v = cx.fresh("s")
+                    return f"match add_chk {lt} {rt} with Ret {v} => {k(v, 'N')} | Panic => Panic | OutOfFuel => OutOfFuel end"
                 return k(f"({lt} + {rt})", "N")
             if op == "*": return k(f"({lt} * {rt})", "N")
             if op == "-":
@@ -1224,6 +1255,7 @@ class Emitter:
             if sp_[0] == "p_wild": binders.append("_")
             elif sp_[0] == "p_bind":
                 binders.append(sp_[1]); env2[sp_[1]] = (sp_[1], fty)
+                if fty == "N" and isinstance(sty, tuple) and sty[0] == "named" and sty[1] in CALLER_INT_TYPES: cx.risky.add(sp_[1])
             else:
                 v = cx.fresh("x"); binders.append(v); nested.append((sp_, v, fty))
         def inner(envx, todo):
@@ -1262,6 +1294,7 @@ class Emitter:
             while pat[0] == "p_ref": pat = pat[1]
             if init is None: raise RsError("let without initialiser")
             if pat[0] == "p_bind":
+                if cx.risky and mentions(init, cx.risky): cx.risky.add(pat[1])
                 def after(t, ty):
                     env2 = dict(env); env2[pat[1]] = (pat[1], ty)
                     return f"let {pat[1]} := {t} in " + self.fresh_var(cx, pat[1], lambda: cont(env2))
@@ -1305,8 +1338,12 @@ class Emitter:
             x = place_var(lhs)
             if not (x and x in env): raise RsError("assignment to an unknown place")
             if op == "=":
+                if cx.risky and mentions(rhs, cx.risky): cx.risky.add(x)
                 return self.tr(rhs, env, cx, lambda t, ty: f"let {x} := {self.coerce(t, ty, env[x][1])} in " + self.fresh_var(cx, x, lambda: cont(env)))
             if op == "+=":
+                if cx.risky and (x in cx.risky or mentions(rhs, cx.risky)):
+                    cx.risky.add(x)
+                    return self.tr(("binary", "+", lhs, rhs), env, cx, lambda t, ty: f"let {x} := {t} in {cont(env)}")
                 return self.tr(rhs, env, cx, lambda t, ty: f"let {x} := ({x} + {t}) in {cont(env)}")
             if op == "-=":
                 return self.tr(("binary", "-", lhs, rhs), env, cx, lambda t, ty: f"let {x} := {t} in {cont(env)}")
@@ -1615,6 +1652,10 @@ def translate(repo, groups, types, fuel):
                 cx = Ctx(unit, self_ty, ret_ty, coqname)
                 cx.skip_lets = set(t.get("skip_lets", []))
                 cx.mut_self = mut_self or lens
+                # integers that come straight from the caller of the public API: listed parameters, and a `self` that is an integer or a
+                # range (its fields are read as `self.start` / `self.end`)
+                cx.risky = {v for v in env if v in CALLER_INT_PARAMS.get(coqname, ())}
+                if self_t == "N" or (isinstance(self_t, tuple) and self_t[0] == "named" and self_t[1] in CALLER_INT_TYPES): cx.risky.add("self")
                 cx.mod = t.get("mod")
                 cx.call_map = {k_: tuple(v_) for k_, v_ in t.get("calls", {}).items()}
                 if lens:
